@@ -107,4 +107,20 @@ TEXTS = {
                     "field, by behaviour on generated queries and by re-serialisation. Counter-example search with shrinking."),
         level_note=("Trusted: the public getters used for comparison, rapidcheck. Equivalence is asserted over what the format stores plus behaviour derived from it; "
                     "objects are small (<= a few dozen values).")),
+    "C01": dict(
+        engine="rapidcheck",
+        technique="property-based testing (rapidcheck): generated data/model/drift/neighbourhood/target configurations; oracle = independent dense assembly of the kriging system in the harness (long double, full-pivot LU) with condition-number-scaled comparison of estimate, stdev, varz, weights and exported system",
+        design_ref="DESIGN.md §5 C01",
+        level_text=("Exploration: ~27 000 (quick) to ~600 000 (thorough) generated kriging configurations over 14 families (SK/OK/UK/external drift, cokriging with "
+                    "heterotopy, moving neighbourhoods, blocks incl. rotated grids, measurement error, intrinsic models, matLC, cross-validation, krigtest export); "
+                    "every output is compared with an independently assembled and solved system. Counter-example search with shrinking."),
+        level_note=("Trusted: Model::eval for the bi-point covariance (tied to closed forms by C03), the harness's drift functions and linear algebra (Eigen in long double), "
+                    "rapidcheck. n<=40 samples; ill-conditioned systems (kappa>1e10) are inconclusive as the property exempts round-off proportional to conditioning.")),
+    "C02": dict(
+        engine="rapidcheck",
+        technique="property-based testing (rapidcheck): metamorphic relations (drift shift, linearity, permutation, translation) and exactness/unbiasedness predicates on generated kriging configurations",
+        design_ref="DESIGN.md §5 C02",
+        level_text=("Exploration: ~19 000 (quick) to ~370 000 (thorough) generated configurations, each kriged 1-3 times under a known transformation of the inputs and "
+                    "compared with the predicted transformation of the outputs; exactness at data and universality checked as predicates."),
+        level_note=("Trusted: the transformation algebra in the harness, rapidcheck; same generator and kappa-gating as C01.")),
 }
